@@ -15,7 +15,7 @@ def units(tier, seed):
         u["seed"] = seed
     # every session / encryption configuration of every frame as a root of its own (k <= 1 around it)
     for u in cases.fault_units(tier, seed, k=1, with_prims=False, with_structs=False):
-        if u["variant"] in ("sess1", "sess2", "sess0", "sess4", "decrypt", "decrypt-pw", "encrypted", "pair-sess", "failed", "failed-flag"):
+        if u["variant"] in ("sess1", "sess2", "sess0", "sess4", "decrypt", "decrypt-pw", "decrypt-first", "encrypted", "pair-sess", "pair-enc", "pair-enc-first", "failed", "failed-flag", "plain3"):
             us.append(dict(u, seed=seed, label="variant:" + u["label"], budget=400, k_min=0))
     # every frame and stream once more under a non-default root path (an argument of the decoder's API)
     for u in list(us):
